@@ -813,6 +813,7 @@ func (fr *frame) instr(ins ssa.Instruction, back map[[2]int]bool) {
 		}
 		fr.nilCheck(p, "store")
 		fr.lockCheck(p, true, fr.pos(x.Pos()))
+		fr.sharedWriteCheck(x, p)
 		vc.storeLoc(fr.mem, fr.ptrLoc(p), fr.asTerm(v))
 	case *ssa.UnOp:
 		fr.unop(x)
@@ -850,6 +851,10 @@ func (fr *frame) instr(ins ssa.Instruction, back map[[2]int]bool) {
 		r := vc.alloc(fr.mem, fr.pfx+x.Name())
 		fr.setVal(x, Val{T: x.Type(), S: r})
 	case *ssa.MapUpdate:
+		if fr.vc.P.checkSharedWrites && throughShared(x.Map, 0) {
+			m := fr.val(x.Map)
+			fr.vc.oblige("fresh-write", fmt.Sprintf("%s/fresh-write[updated map of a shared input structure was allocated here#%d]", fr.vc.Name, fr.occ("sharedmap:"+fr.fn.Name())), fr.guard, app(">=", m.S, fr.vc.brk0), fr.pos(x.Pos()))
+		}
 		fr.mapUpdate(fr.val(x.Map), fr.val(x.Key), fr.val(x.Value), fr.pos(x.Pos()))
 	case *ssa.Lookup:
 		fr.lookup(x)
@@ -1711,4 +1716,24 @@ func allocEscapes(a *ssa.Alloc) bool {
 		return false
 	}
 	return visit(a, 0)
+}
+
+// sharedWriteCheck (C06): a store into a structure of one of the shared input
+// types (go/ast, go/types, go/token, packages) is only allowed if the object
+// was allocated by this activation.
+func (fr *frame) sharedWriteCheck(x *ssa.Store, p Val) {
+	vc := fr.vc
+	if !vc.P.checkSharedWrites || !throughShared(x.Addr, 0) {
+		return
+	}
+	l := fr.ptrLoc(p)
+	if l.Private != "" {
+		return
+	}
+	label := vc.P.srcText(fr.fn, x.Pos(), "binary")
+	if label == "" {
+		label = "store"
+	}
+	key := "sharedwrite:" + fr.fn.Name()
+	vc.oblige("fresh-write", fmt.Sprintf("%s/fresh-write[written %s object was allocated here#%d]", vc.Name, typeKey(l.BaseT), fr.occ(key)), fr.guard, app(">=", l.Ref, vc.brk0), fr.pos(x.Pos()))
 }
